@@ -191,22 +191,28 @@ func (a *inMemoryAdapter) apply(opts *BroadcastOptions, callback func(socket Soc
 				}
 				socket, ok := a.sockets.Get(sid)
 				if ok {
+					// The socket is recorded before the mutex is released. The rooms can change
+					// during the callback: a socket that leaves and comes back meanwhile (a session
+					// that is restored comes back with the same ID) can turn up again in this
+					// iteration, and it is called once.
+					ids.Add(sid)
 					a.mu.Unlock()
 					callback(socket)
 					a.mu.Lock()
-					ids.Add(sid)
 				}
 				return false
 			})
 			return false
 		})
 	} else {
+		ids := mapset.NewThreadUnsafeSet[SocketID]()
 		for sid := range a.sids {
-			if exceptSids.Contains(sid) {
+			if ids.Contains(sid) || exceptSids.Contains(sid) {
 				continue
 			}
 			socket, ok := a.sockets.Get(sid)
 			if ok {
+				ids.Add(sid)
 				a.mu.Unlock()
 				callback(socket)
 				a.mu.Lock()
